@@ -1331,6 +1331,35 @@ func init() {
 		h := e.c.heapGet(e.st, "held$", SArr(SInt, SBool))
 		return Sc{Select(h, tm, SBool)}, tBool
 	}
+	// freshslice(s): the backing array of s did not exist at function entry (or s is nil)
+	specBuiltins["freshslice"] = func(e *SpecEnv, n *ast.CallExpr) (SV, types.Type) {
+		v, _ := e.eval(n.Args[0])
+		sl, ok := v.(Sl)
+		if !ok {
+			e.fail("freshslice() needs a slice")
+		}
+		return Sc{Or(Eq(sl.Arr, IntLit(0)), App(SBool, ">=", sl.Arr, e.c.allocInit()))}, tBool
+	}
+	// arrof(s): the backing array of a slice, as an opaque reference
+	specBuiltins["arrof"] = func(e *SpecEnv, n *ast.CallExpr) (SV, types.Type) {
+		v, _ := e.eval(n.Args[0])
+		sl, ok := v.(Sl)
+		if !ok {
+			e.fail("arrof() needs a slice")
+		}
+		return Sc{sl.Arr}, tMathInt
+	}
+	// samearray(a, b): two slices share their backing array
+	specBuiltins["samearray"] = func(e *SpecEnv, n *ast.CallExpr) (SV, types.Type) {
+		a, _ := e.eval(n.Args[0])
+		b, _ := e.eval(n.Args[1])
+		sa, ok1 := a.(Sl)
+		sb, ok2 := b.(Sl)
+		if !ok1 || !ok2 {
+			e.fail("samearray() needs two slices")
+		}
+		return Sc{Eq(sa.Arr, sb.Arr)}, tBool
+	}
 	specBuiltins["ceilu64"] = func(e *SpecEnv, n *ast.CallExpr) (SV, types.Type) {
 		v, t := e.eval(n.Args[0])
 		tm, _ := e.scalar(v, t)
